@@ -45,6 +45,9 @@ func contract_GoCamelCase(s string) (r string) {
 // @ loop 1 invariant 0 <= i && i <= len(s) && len(b) <= i && (freshSlice(b) || b == nil)
 // @ loop 1 invariant forallIn(b, 0, len(b), func(k int, e byte) bool { return e != '_' })
 func contract_JSONCamelCase(s string) (r string) {
+	// the function is deterministic: its result is THE camel-case form of s (an uninterpreted
+	// function of s, so that callers can speak about it)
+	ensuresTrusted(identical(r, SpecJSONCamelCase(s)))
 	ensures(len(r) <= len(s))
 	ensures(forallStr(r, 0, len(r), func(k int, e byte) bool { return e != '_' }))
 	return
@@ -58,6 +61,7 @@ func contract_JSONCamelCase(s string) (r string) {
 // @ loop 1 invariant 0 <= i && i <= len(s) && i <= len(b) && len(b) <= 2*i && (freshSlice(b) || b == nil)
 // @ loop 1 invariant forallIn(b, 0, len(b), func(k int, e byte) bool { return !('A' <= e && e <= 'Z') })
 func contract_JSONSnakeCase(s string) (r string) {
+	ensuresTrusted(identical(r, SpecJSONSnakeCase(s)))
 	ensures(len(s) <= len(r) && len(r) <= 2*len(s))
 	ensures(forallStr(r, 0, len(r), func(k int, e byte) bool { return !('A' <= e && e <= 'Z') }))
 	return
@@ -77,3 +81,12 @@ func contract_GoSanitized(s string) (r string) {
 	modifiesAll()
 	return
 }
+
+// SpecJSONCamelCase / SpecJSONSnakeCase: the results of the two conversions as (uninterpreted)
+// functions of the input, for contracts of callers that need to say "the camel-case form of s".
+//
+// @ uninterpreted
+func SpecJSONCamelCase(s string) string { return JSONCamelCase(s) }
+
+// @ uninterpreted
+func SpecJSONSnakeCase(s string) string { return JSONSnakeCase(s) }
